@@ -160,7 +160,8 @@ def numpy_route(ctx, rng, k):
         n = (8, 16, 4)  # 128 traces: 4x length is a multiple of 512
     arr = gen.cube(rng, n)
     il, xl = segycases.axes(rng, n)
-    dtypes = [np.int64, np.int32, np.int16, np.uint16, np.int8, np.uint8]
+    # every integer dtype, both byte orders (an array made with np.frombuffer(segy_bytes, '>i4') is big-endian)
+    dtypes = [np.dtype(t) for t in (np.int64, np.int32, np.int16, np.uint16, np.int8, np.uint8, '>i4', '>u4', '>i2', '>i8', '<u4')]
     cand = [c for c in mksegy.ALL_FIELDS if c not in (189, 193)]
     codes = sorted(int(c) for c in rng.choice(cand, size=int(rng.integers(0, 6)), replace=False))
     hd = {}
@@ -182,7 +183,9 @@ def numpy_route(ctx, rng, k):
     ctx.stats['route_numpy'] += 1
     out = ctx.path('n.sgz')
     try:
-        conv.numpy_to_sgz(arr, out, 16, (4, 4, -1), ilines=np.array(il), xlines=np.array(xl),
+        ax_dt = [np.int64, '>i4', np.int32, '>i8', np.int16][k % 5] if max(map(abs, il + xl)) < 2 ** 15 else [np.int64, '>i4', '>i8'][k % 3]
+        desc['axes_dtype'] = str(np.dtype(ax_dt))
+        conv.numpy_to_sgz(arr, out, 16, (4, 4, -1), ilines=np.array(il, dtype=ax_dt), xlines=np.array(xl, dtype=ax_dt),
                           samples=4.0 * np.arange(n[2]), trace_headers=dict(hd))
     except Exception as e:  # noqa
         ctx.fail(f'NumPy conversion failed: {type(e).__name__}: {str(e)[:120]}', desc)
